@@ -23,7 +23,7 @@ for d in sorted(glob.glob(os.environ.get('REFAC_GLOB', '/tmp/refac_C*/R*'))):
     rcs = re.findall(r'^(C\d+) rc=(\d)', out, re.M)
     if keep and rcs and all(rc == "0" for _, rc in rcs):
         for q, _ in rcs:
-            rn = os.path.basename(d) + {'refac2': 'b', 'refac3': 'c', 'refac4': 'd', 'refac5': 'e'}.get(tagp, '')
+            rn = os.path.basename(d) + {'refac2': 'b', 'refac3': 'c', 'refac4': 'd', 'refac5': 'e', 'refac6': 'f'}.get(tagp, '')
             tgt = '/verif/selftest/%s/silent_refac_%s_%s.patch' % (q, pid, rn)
             if not os.path.exists(tgt):
                 subprocess.run(['python3', '/verif/tools/keep_refactor.py', q, d, '%s_%s' % (pid, rn)])
